@@ -498,6 +498,13 @@ def judge(prop, tier):
         "binding_selftest": selftest,
         "exhaustive": True,
     }
+    if prop in ("C05", "C07"):
+        import p1
+        extra = nodeop_family(tier) if prop == "C05" else pratt_corpus(tier)
+        at = p1.attrs_stage(prop, tier, rep, extra)
+        rep.coverage["analysis_attribute_stage"] = at
+        rep.coverage["states"] += at["states"]
+        rep.coverage["transitions"] += at["transitions"]
     if prop == "C02":
         bs = builder_stage(tier)
         rep.coverage["builder_histories"] = {k: v for k, v in bs.items() if k != "failures"}
